@@ -9,6 +9,9 @@ const MAXC: usize = 512;
 static NAME: [AtomicU32; 16] = [const { AtomicU32::new(0) }; 16];
 static CHOICES: [AtomicU32; MAXC] = [const { AtomicU32::new(0) }; MAXC];
 static NCHOICES: AtomicUsize = AtomicUsize::new(0);
+/// what the harness was doing (1: a C-ABI client re-entering `waitable_register` /
+/// `waitable_unregister` from a completion callback); printed in the crash line
+pub static PHASE: AtomicU32 = AtomicU32::new(0);
 
 pub fn begin(scenario: &str) {
     let b = scenario.as_bytes();
@@ -21,6 +24,7 @@ pub fn begin(scenario: &str) {
         NAME[i].store(w, Relaxed);
     }
     NCHOICES.store(0, Relaxed);
+    PHASE.store(0, Relaxed);
 }
 
 #[inline]
@@ -63,7 +67,9 @@ pub fn describe(signal: i32, buf: &mut [u8; 4096]) -> usize {
         }
         put_num(CHOICES[i].load(Relaxed), &mut put, &mut n);
     }
-    put(b"]\n", &mut n);
+    put(b"] phase=", &mut n);
+    put_num(PHASE.load(Relaxed), &mut put, &mut n);
+    put(b"\n", &mut n);
     n
 }
 
